@@ -129,8 +129,43 @@ def build(harness, verbose=False, race=False):
         print("built %s (%.1fs)" % (harness, time.time() - t0))
     return out
 
+def build_race(harness="race", verbose=False):
+    """Free-running race pass: /verif/harness/<harness> built with -race against the UNinstrumented
+    tree (real goroutines, real sync); only the hook files that do not need the virtual run time are
+    overlaid."""
+    out_dir = os.path.join(WORK, "race")
+    os.makedirs(out_dir, exist_ok=True)
+    rep = {}
+    for rel, src in inject_files().items():
+        if "verif_vrt" in open(src).read():
+            continue
+        rep[os.path.join(REPO, rel)] = src
+    hb = os.path.join(VERIF, "harness", harness)
+    for f in glob.glob(os.path.join(hb, "*.go")):
+        rep[os.path.join(REPO, "verif_h", harness, os.path.basename(f))] = f
+    for f in ("go.mod", "go.sum"):
+        dst = os.path.join(out_dir, f)
+        shutil.copyfile(os.path.join(REPO, f), dst)
+        rep[os.path.join(REPO, f)] = dst
+    ov = os.path.join(out_dir, "overlay.json")
+    json.dump({"Replace": rep}, open(ov, "w"), indent=1)
+    out = os.path.join(WORK, "bin", harness + "-race")
+    os.makedirs(os.path.join(WORK, "bin"), exist_ok=True)
+    env = dict(ENV, CGO_ENABLED="1")
+    t0 = time.time()
+    r = subprocess.run(["go", "build", "-race", "-tags", "verif", "-overlay", ov, "-o", out, "./verif_h/" + harness],
+                       cwd=REPO, env=env, stdout=subprocess.PIPE, stderr=subprocess.STDOUT, text=True)
+    if r.returncode != 0:
+        sys.stdout.write(r.stdout[-6000:])
+        sys.exit("ENGINE-ERROR: race-pass harness %s does not build against the current tree" % harness)
+    if verbose:
+        print("built %s-race (%.1fs)" % (harness, time.time() - t0))
+    return out
+
 if __name__ == "__main__":
     if sys.argv[1] == "instr":
         print(instrument(True))
+    elif sys.argv[1] == "build-race":
+        print(build_race(sys.argv[2] if len(sys.argv) > 2 else "race", True))
     elif sys.argv[1] == "build":
         print(build(sys.argv[2], True))
